@@ -117,7 +117,8 @@ func harnessC18(n, mode, wset, sched, hist int) {
 		via = g.Reverse()
 		a, b = b, a
 	}
-	if vnBool("remove") {
+	switch c18ids[vnChoice("mutation", 3)] {
+	case 0:
 		via.RemoveEdge(a, b)
 		if via != &g {
 			present[b][a] = false
@@ -125,7 +126,7 @@ func harnessC18(n, mode, wset, sched, hist int) {
 			present[a][b] = false
 		}
 		vnNoteAppend(fmt.Sprintf("| then RemoveEdge(%d,%d) viaReverse=%v", a, b, via != &g))
-	} else {
+	case 1:
 		nw := vnInt("nw")
 		vnAssume(0 <= nw)
 		vnAssume(nw <= vnC18W)
@@ -138,6 +139,15 @@ func harnessC18(n, mode, wset, sched, hist int) {
 			w[a][b] = nw
 		}
 		vnNoteAppend(fmt.Sprintf("| then AddEdgeWeighted(%d,%d,nw) viaReverse=%v", a, b, via != &g))
+	default:
+		// a vertex is removed (all its edges go) and added again
+		via.Remove(a)
+		via.Add(a)
+		for k := 0; k < n; k++ {
+			present[a][k] = false
+			present[k][a] = false
+		}
+		vnNoteAppend(fmt.Sprintf("| then Remove(%d); Add(%d) viaReverse=%v", a, a, via != &g))
 	}
 	c18Oracle(&g, n, wset, &present, &w, "C18.after-mutation")
 	vnCover("C18.search-after-mutation-checked")
